@@ -314,6 +314,7 @@ func verifK_FinishClient() {
 	var final error
 	var trailers metadata.MD
 	readerDone := false
+	hdrAtReturn := 0
 	verifGo("recv-loop", func() {
 		st.acceptServerFrame(&tunnelpb.ServerToClient_ResponseHeaders{ResponseHeaders: &tunnelpb.Metadata{
 			Md: map[string]*tunnelpb.Metadata_Values{"hk": {Val: []string{"h1"}}}}})
@@ -342,6 +343,8 @@ func verifK_FinishClient() {
 			got = append(got, m.Value)
 		}
 		trailers = st.Trailer()
+		// the call is over for its caller: what it finds in its grpc.Header target now is final
+		hdrAtReturn = len(hdrT["hk"])
 		readerDone = true
 	})
 	withCancel := verifParam("cancel") == 1
@@ -369,6 +372,9 @@ func verifK_FinishClient() {
 		verifAssert(len(trailers) == 0, "C07.k-no-mixture-of-cancel-and-trailers")
 	}
 	verifAssert(len(got) <= 1, "C01.k-no-duplicate-message")
+	// a call-option target belongs to the caller again once the call has returned its terminal result:
+	// the library does not write to it afterwards (a late write is a race with the caller's reads)
+	verifAssert(len(hdrT["hk"]) == hdrAtReturn, "C02+C15.k-header-target-not-written-after-the-terminal-result")
 	_, still := c.streams[st.streamID]
 	verifAssert(!still, "C14.k-finished-rpc-leaves-table")
 }
